@@ -205,20 +205,32 @@ def _visit_clauses():
             return p.events == ("enter",) and isinstance(p.payload, Unknown) and p.payload.text == "node"
         return None
 
+    def nullness(v):
+        """True: the returned value is None; False: it is a node; None: unknown"""
+        if isinstance(v, T.Const):
+            return v.value is None
+        if isinstance(v, Unknown):
+            return v.null
+        return False
+
     def deleted(p):
-        if p.assumed("node is not None") is False and count(p.events, "traverse") == 0 and p.outcome == "return" and not any("enter-raises" in t for t in p.trail):
-            return p.events == ("enter",) and isinstance(p.payload, Unknown) and p.payload.null is True
+        # enter returned None (the path neither skips nor traverses): nothing else happens and None is returned
+        if p.outcome == "return" and count(p.events, "traverse") == 0 and not any("enter-raises" in t for t in p.trail):
+            return p.events == ("enter",) and nullness(p.payload) is True
         return None
 
     def leave_rule(p):
-        # leave exactly once iff enter and the traversal both produced a node; never before the traversal
+        # leave exactly once, after the traversal, iff the node survived enter and the traversal (= a node is returned)
         if p.outcome != "return":
             return count(p.events, "leave") <= 1
         if count(p.events, "traverse") == 0:
             return count(p.events, "leave") == 0
-        facts = [o for t, o in p.facts if t == "node is not None"]
-        produced = len(facts) == 2 and facts[1] is True
-        return count(p.events, "leave") == (1 if produced else 0) and (not produced or index(p.events, "traverse") < index(p.events, "leave"))
+        n = nullness(p.payload)
+        if n is True:
+            return count(p.events, "leave") == 0
+        if n is False:
+            return count(p.events, "leave") == 1 and index(p.events, "traverse") < index(p.events, "leave")
+        return None
 
     return [
         ("enter-once-first", "enter is called exactly once, before anything else", enter_first),
